@@ -12,7 +12,7 @@ RULE = ('behaviours: new builder, 1..12 typed stores that fit (uint/int widths 1
         'byte strings 0..5000), end_cell, begin_parse, then preload+load of each item in order; distinct = distinct (store op, '
         'arguments) pairs')
 ASSUMPTIONS = ['TonBag.Do is the TL-B meaning of each call (big-endian two\'s complement, minimal VarInteger, addr_none/extern/std)',
-               'strings are ASCII and read back with their stored length; a snake string is the last item of its cell',
+               'strings are UTF-8 text (1- to 4-byte characters) read back with their stored byte length; a snake string is the last item of its cell',
                'a builder that raised is dropped (no atomicity is promised)']
 CANARIES = 6
 V_TIMEOUT = 1500
@@ -81,7 +81,17 @@ class Script:
             if n < 1:
                 return None
             if k == 'string':
-                data = [rng.choice(b'abcXYZ 019_-') for _ in range(n)]
+                # text with 1-, 2-, 3- and 4-byte UTF-8 characters (character count != byte count); the stored length is in bytes
+                txt = ''
+                while True:
+                    ch = rng.choice('abcXYZ 019_-' if rng.random() < 0.4 else '\u00e9\u0416\u20ac\u4e2d\U0001F600z')
+                    if len((txt + ch).encode()) > n:
+                        break
+                    txt += ch
+                data = list(txt.encode())
+                n = len(data)
+                if n < 1:
+                    return None
                 return ({'op': 'store_string', 'bytes': data}, {'what': 'bytes', 'n': n, 'via': 'string'}, 8 * n, 0)
             return ({'op': 'store_bytes', 'bytes': [rng.getrandbits(8) for _ in range(n)]}, {'what': 'bytes', 'n': n}, 8 * n, 0)
         if k == 'address':
